@@ -789,7 +789,16 @@ func (w *World) handlePathPanic(r interface{}, t *Thread) {
 		case "infeasible":
 			w.res.Infeasible++
 		case "unsupported":
-			w.res.Unsupported = appendUniq(w.res.Unsupported, p.msg)
+			msg := p.msg
+			if c := w.cur; !strings.Contains(msg, " in ") && c != nil && c.top != nil {
+				// raised below an intrinsic without a frame: attribute to the innermost interpreted frames
+				lines := strings.Split(strings.TrimSpace(w.where(c.top)), "\n")
+				if len(lines) > 3 {
+					lines = lines[:3]
+				}
+				msg += " in " + strings.Join(lines, " < ")
+			}
+			w.res.Unsupported = appendUniq(w.res.Unsupported, msg)
 		case "unwind":
 			w.res.Unwind = appendUniq(w.res.Unwind, p.msg)
 		case "engine":
